@@ -1,5 +1,6 @@
 __all__ = ["AppendOutput"]
 
+import os
 from dataclasses import dataclass
 
 from ...format import Mode
@@ -30,6 +31,12 @@ from ._base import Output
 from ._bucket import BucketOutput
 
 default_array_size = Multiply(IntegerLiteral(1024), IntegerLiteral(1024))
+
+# Verification hook (off unless TENSORA_VERIF_INITIAL_CAPACITY is set): start growable output arrays
+# at a small capacity so that the growth and shrink paths run on small inputs.
+if os.environ.get("TENSORA_VERIF_INITIAL_CAPACITY", "").isdigit():
+    if int(os.environ["TENSORA_VERIF_INITIAL_CAPACITY"]) >= 1:
+        default_array_size = IntegerLiteral(int(os.environ["TENSORA_VERIF_INITIAL_CAPACITY"]))
 
 
 @dataclass(frozen=True, slots=True)
